@@ -68,7 +68,7 @@ PROPS = {
     },
     'C02': {
         'level': 'proof',
-        'verus': [{'group': 'shard_core'}, _sg('shard_strings'), _sg('shard_lists'), _sg('shard_sweeper'), _sg('shard_sets'), _sg('shard_hashes'), _sg('shard_zsets')],
+        'verus': [{'group': 'shard_core'}, _sg('shard_strings'), _sg('shard_lists'), _sg('shard_sweeper'), _sg('shard_sets'), _sg('shard_hashes'), _sg('shard_zsets'), {'group': 'shard_flush', 'exclude_units': SHARD_VALUE_UNITS}],
         'explanation': 'deadline-index invariant index_ok preserved by every shard operation under contract; lazy expiry of get/exists/set_nx; ttl arithmetic',
     },
     'C03': {
@@ -102,7 +102,7 @@ PROPS = {
     },
     'C08': {
         'level': 'proof',
-        'verus': [{'group': 'shard_core'}, _sg('shard_strings'), _sg('shard_lists'), _sg('shard_sweeper'), _sg('shard_sets'), _sg('shard_hashes'), _sg('shard_zsets'), {'group': 'srv_exec'}],
+        'verus': [{'group': 'shard_core'}, _sg('shard_strings'), _sg('shard_lists'), _sg('shard_sweeper'), _sg('shard_sets'), _sg('shard_hashes'), _sg('shard_zsets'), {'group': 'srv_exec'}, {'group': 'shard_flush', 'exclude_units': SHARD_VALUE_UNITS}],
         'explanation': 'every shard mutator under contract marks the key it changes and no other (step_ok)',
     },
     'C09': {
@@ -121,7 +121,7 @@ PROPS = {
     },
     'C11': {
         'level': 'proof',
-        'verus': [{'group': 'c11_aof'}, {'group': 'srv_frame'}],
+        'verus': [{'group': 'c11_aof'}, {'group': 'srv_frame'}, {'group': 'srv_aof'}],
         'tables': [{'name': 'is_write_command', 'file': 'src/network/server.rs', 'fn': 'Server::is_write_command',
                     'expect_true': lambda names: set(names) & _t.write_catalogue(),
                     'why': 'a dispatched command is appended to the AOF iff it is a Redis write command (spec/write_catalogue.txt)'}],
@@ -142,6 +142,11 @@ PROPS = {
         'level': 'proof',
         'verus': [{'group': 'srv_frame'}, {'group': 'srv_conn'}, {'group': 'srv_auth'}],
         'explanation': 'the password gate: process_frame (whole function) refuses every command but AUTH/PING/QUIT from a connection that has not authenticated, without running any handler or touching any connection entry; the frame loop of process_connection hands such a frame to process_frame only (no replication handshake); handle_auth authenticates exactly on the configured password and only the issuing connection',
+    },
+    'C18': {
+        'level': 'proof',
+        'verus': [{'group': 'srv_select'}, {'group': 'srv_frame'}, {'group': 'srv_exec'}, _cg('cmd_strings', True), _cg('cmd_lists'), _cg('cmd_sets'), _cg('cmd_hashes'), {'group': 'shard_flush', 'exclude_units': SHARD_VALUE_UNITS}],
+        'explanation': 'the db index along the direct and the EXEC path: SELECT (refusal / per-connection effect), process_frame dispatches with the issuing connection\'s selection, EXEC runs the queue on the connection\'s database, get_shard maps db to a shard of that database, the command handlers under contract read and write only (db, .) entries of the reference dataset, flush of a shard touches that shard only',
     },
     'C19': {
         'level': 'proof',
